@@ -1,7 +1,992 @@
 package main
 
-// counterexample search (refutation mode) and replay on the real code: see replay_impl.go (to come)
+// Counterexample search and replay on the real code.
+//
+// For a failed obligation of a top-level function whose inputs can be concretised (integers, booleans,
+// bytes, strings, byte slices, string slices, and structs of those reachable through pointers), the failed
+// query is re-asked in refutation mode (ground.go); a model is turned into Go values, an in-package test is
+// generated that builds those values, calls the real function under recover() and evaluates the obligation
+// (safety obligation: "it panicked"; postcondition: the contract clause compiled to Go), and the test is run
+// through `go test -overlay` so that nothing is written into the repository.
 
-func tryReplay(v *Verifier, o *Obl, q *Query, rp map[string]interface{}) bool { return false }
+import (
+	"bytes"
+	"encoding/json"
+	"fmt"
+	"go/types"
+	"os"
+	"os/exec"
+	"path/filepath"
+	"regexp"
+	"sort"
+	"strconv"
+	"strings"
+	"time"
 
-func runReplayTest(rp map[string]interface{}) int { return 1 }
+	"golang.org/x/tools/go/ssa"
+)
+
+type leaf struct {
+	goLHS string     // Go lvalue / variable to assign
+	term  string     // SMT term denoting the entry value
+	t     types.Type // Go type
+	sort  Sort
+}
+
+type replayPlan struct {
+	f        *ssa.Function
+	pkg      *types.Package
+	setup    []string // statements creating objects
+	leaves   []leaf
+	args     []string // Go expressions for the call arguments (receiver first)
+	imports  map[string]bool
+	ok       bool
+	why      string
+	argNames map[string]string // contract name -> Go variable
+}
+
+func (v *Verifier) qualifier(pkg *types.Package, imports map[string]bool) types.Qualifier {
+	return func(p *types.Package) string {
+		if p == pkg {
+			return ""
+		}
+		imports[p.Path()] = true
+		return p.Name()
+	}
+}
+
+func declared(q *Query, name string) bool {
+	pat := "(declare-const " + name + " "
+	for _, d := range q.Ctx.decls[:q.NDecl] {
+		if strings.HasPrefix(d, pat) {
+			return true
+		}
+	}
+	return false
+}
+
+func (v *Verifier) buildPlan(q *Query, f *ssa.Function) *replayPlan {
+	p := &replayPlan{f: f, imports: map[string]bool{}, argNames: map[string]string{}}
+	if f.Parent() != nil || f.Pkg == nil {
+		p.why = "closures and synthetic functions are not replayed"
+		return p
+	}
+	p.pkg = f.Pkg.Pkg
+	qual := v.qualifier(p.pkg, p.imports)
+	// parameter symbols: p_<name>!k declared in the query
+	symOf := func(name string) string {
+		pat := regexp.MustCompile(`^\(declare-const (p_` + regexp.QuoteMeta(smtIdent(name)) + `!\d+) `)
+		for _, d := range q.Ctx.decls[:q.NDecl] {
+			if m := pat.FindStringSubmatch(d); m != nil {
+				return m[1]
+			}
+		}
+		return ""
+	}
+	nobj := 0
+	var build func(goExpr, term string, t types.Type, depth int) bool
+	build = func(goExpr, term string, t types.Type, depth int) bool {
+		switch u := t.Underlying().(type) {
+		case *types.Basic:
+			so, ok := sortOf(t)
+			if !ok || isFloat(t) {
+				return true // left at zero
+			}
+			p.leaves = append(p.leaves, leaf{goExpr, term, t, so})
+			return true
+		case *types.Slice:
+			so, ok := sortOf(t)
+			if !ok || so == SSeqI {
+				return true
+			}
+			p.leaves = append(p.leaves, leaf{goExpr, term, t, so})
+			return true
+		case *types.Pointer:
+			st, isStruct := u.Elem().Underlying().(*types.Struct)
+			if !isStruct || depth > 2 {
+				return true
+			}
+			named, _ := u.Elem().(*types.Named)
+			tn := types.TypeString(u.Elem(), qual)
+			if named != nil && named.Obj().Pkg() != nil && !v.isRepoPkg(named.Obj().Pkg().Path()) {
+				switch tn {
+				case "regexp.Regexp":
+					p.imports["regexp"] = true
+					p.setup = append(p.setup, fmt.Sprintf("%s = regexp.MustCompile(`a^`)", goExpr))
+				default:
+					if named.Obj().Exported() {
+						p.setup = append(p.setup, fmt.Sprintf("%s = new(%s)", goExpr, tn))
+					}
+				}
+				return true
+			}
+			if named != nil && !named.Obj().Exported() && named.Obj().Pkg() != p.pkg {
+				return true
+			}
+			if tn == "util.Queue" || (tn == "Queue" && p.pkg.Name() == "util") {
+				ctor := "util.NewQueue()"
+				if p.pkg.Name() == "util" {
+					ctor = "NewQueue()"
+				} else {
+					p.imports[repoModule+"/util"] = true
+				}
+				p.setup = append(p.setup, fmt.Sprintf("%s = %s", goExpr, ctor))
+				// the queue is filled through its own API from the model of its contents
+				if declared(q, "H_util_Queue_queue_0") {
+					p.leaves = append(p.leaves, leaf{"queue:" + goExpr, fmt.Sprintf("(select H_util_Queue_queue_0 %s)", term), types.NewSlice(types.NewSlice(types.Typ[types.Uint8])), SSeqB})
+				}
+				return true
+			}
+			p.setup = append(p.setup, fmt.Sprintf("%s = &%s{}", goExpr, tn))
+			nobj++
+			for i := 0; i < st.NumFields(); i++ {
+				fld := st.Field(i)
+				if !fld.Exported() && named != nil && named.Obj().Pkg() != p.pkg {
+					continue
+				}
+				key := "H_" + shortTypeName(u.Elem()) + "_" + fld.Name()
+				ft := fld.Type()
+				fterm := fmt.Sprintf("(select %s_0 %s)", key, term)
+				has := declared(q, key+"_0")
+				switch fu := ft.Underlying().(type) {
+				case *types.Pointer:
+					build(goExpr+"."+fld.Name(), fterm, ft, depth+1)
+				case *types.Interface:
+					fn := types.TypeString(ft, qual)
+					if fn == "net.Conn" {
+						p.setup = append(p.setup, fmt.Sprintf("%s.%s = &replayConn{}", goExpr, fld.Name()))
+					}
+					_ = fu
+				case *types.Chan:
+					p.setup = append(p.setup, fmt.Sprintf("%s.%s = make(%s)", goExpr, fld.Name(), types.TypeString(ft, qual)))
+				case *types.Map:
+					p.setup = append(p.setup, fmt.Sprintf("%s.%s = %s{}", goExpr, fld.Name(), types.TypeString(ft, qual)))
+				default:
+					if has {
+						build(goExpr+"."+fld.Name(), fterm, ft, depth+1)
+					}
+				}
+			}
+			return true
+		}
+		return true
+	}
+	for i, prm := range f.Params {
+		name := prm.Name()
+		gv := fmt.Sprintf("a%d", i)
+		sym := symOf(name)
+		tn := types.TypeString(prm.Type(), qual)
+		p.setup = append(p.setup, fmt.Sprintf("var %s %s", gv, tn))
+		p.args = append(p.args, gv)
+		p.argNames[name] = gv
+		if sym == "" {
+			continue
+		}
+		build(gv, sym, prm.Type(), 0)
+	}
+	p.ok = true
+	return p
+}
+
+// ---- model ----------------------------------------------------------------------------------------------
+
+func parseValues(out string) map[string]string {
+	vals := map[string]string{}
+	i := strings.Index(out, "((")
+	if i < 0 {
+		return vals
+	}
+	items := parseSexprs(out[i:])
+	if len(items) == 0 {
+		return vals
+	}
+	for _, pair := range items[0].list {
+		if len(pair.list) == 2 {
+			vals[pair.list[0].String()] = pair.list[1].String()
+		}
+	}
+	return vals
+}
+
+func intOf(s string) (int64, bool) {
+	s = strings.TrimSpace(s)
+	if strings.HasPrefix(s, "(- ") {
+		n, err := strconv.ParseInt(strings.TrimSuffix(strings.TrimPrefix(s, "(- "), ")"), 10, 64)
+		return -n, err == nil
+	}
+	n, err := strconv.ParseInt(s, 10, 64)
+	return n, err == nil
+}
+
+func solveGround(smt string, dir string, tag string) (string, string) {
+	file := filepath.Join(dir, "refute_"+tag+".smt2")
+	os.MkdirAll(dir, 0o755)
+	os.WriteFile(file, []byte(smt), 0o644)
+	cmd := exec.Command("z3-new", "-T:10", file)
+	var ob bytes.Buffer
+	cmd.Stdout = &ob
+	cmd.Stderr = &ob
+	cmd.Run()
+	out := ob.String()
+	return firstLine(out), out
+}
+
+func goBytesLit(bs []byte) string {
+	printable := true
+	for _, b := range bs {
+		if b < 32 || b > 126 {
+			printable = false
+		}
+	}
+	if printable {
+		return "[]byte(" + strconv.Quote(string(bs)) + ")"
+	}
+	var parts []string
+	for _, b := range bs {
+		parts = append(parts, fmt.Sprint(b))
+	}
+	return "[]byte{" + strings.Join(parts, ", ") + "}"
+}
+
+func tryReplay(v *Verifier, o *Obl, q *Query, rp map[string]interface{}) bool {
+	if q == nil || q.Ctx == nil || o.FnSSA == nil || o.InlineOf != "" {
+		return false
+	}
+	safety := map[string]bool{"index": true, "slice": true, "nilmap": true, "typeassert": true, "div": true, "panic": true, "makeslice": true, "nilderef": true}
+	if !safety[o.Kind] && !(o.Kind == "post" && o.Clause != nil) {
+		rp["replay_note"] = "obligation kind " + o.Kind + " has no generic executable oracle"
+		return false
+	}
+	plan := v.buildPlan(q, o.FnSSA)
+	if !plan.ok {
+		rp["replay_note"] = plan.why
+		return false
+	}
+	dir := filepath.Dir(filepath.Dir(q.File))
+	if q.File == "" {
+		dir = filepath.Join(v.verifDir, "work")
+	}
+	smt := q.SMT("proof")
+	safetyOracle := "panicked"
+	oracle := safetyOracle
+	var pre []string
+	if o.Kind == "post" {
+		oc := &oracleCompiler{v: v, plan: plan, fc: q.Ctx.FC, f: o.FnSSA}
+		ex, ok := oc.boolExpr(o.Clause.E)
+		if !ok {
+			rp["replay_note"] = "postcondition uses a construct without an executable counterpart: " + oc.why
+			return false
+		}
+		pre = oc.pre
+		oracle = "!panicked && !func() (ok bool) { defer func() { if recover() != nil { ok = true } }(); return " + ex + " }()"
+	}
+	rp["replay_pkg_dir"] = strings.TrimPrefix(plan.pkg.Path(), repoModule+"/")
+	rp["replay_repo"] = v.repo
+	const bound = 8
+	var want, bt []string
+	seqWant := func(term string) {
+		want = append(want, fmt.Sprintf("(len_Y %s)", term))
+		bt = append(bt, fmt.Sprintf("(len_Y %s)", term))
+		for i := 0; i < bound; i++ {
+			want = append(want, fmt.Sprintf("(at_Y %s %d)", term, i))
+		}
+	}
+	for _, lf := range plan.leaves {
+		switch lf.sort {
+		case SInt, SBool:
+			want = append(want, lf.term)
+		case SBytes:
+			seqWant(lf.term)
+		case SSeqB:
+			want = append(want, fmt.Sprintf("(len_B %s)", lf.term))
+			bt = append(bt, fmt.Sprintf("3:(len_B %s)", lf.term))
+			for i := 0; i < 3; i++ {
+				seqWant(fmt.Sprintf("(at_B %s %d)", lf.term, i))
+			}
+		}
+	}
+	base := Ground(smt, nil, bound, bt)
+	// applications of library functions that are uninterpreted for the solver but executable in Go: their
+	// values are tightened from the real functions after every failed replay
+	apps := libraryApps(base)
+	for _, a := range apps {
+		for _, arg := range a.seqArgs {
+			seqWant(arg)
+		}
+		want = append(want, a.term)
+		if a.resultSeq {
+			seqWant(a.term)
+		}
+	}
+	learned := boundedDefinitions(apps, bound)
+	for round := 0; round < 6; round++ {
+		text := base + strings.Join(learned, "\n") + "\n(check-sat)\n(get-value (" + strings.Join(want, " ") + "))\n"
+		status, out := solveGround(text, dir, sanitize(o.Name))
+		rp["refutation_status"] = status
+		rp["refutation_rounds"] = round + 1
+		if status != "sat" {
+			rp["replay_note"] = "refutation mode gave no (further) model: " + status
+			return false
+		}
+		vals := parseValues(out)
+		assigns, modelDesc := concretise(v, plan, vals)
+		rp["model"] = modelDesc
+		variants := []string{"a^"}
+		for _, s := range plan.setup {
+			if strings.Contains(s, "regexp.MustCompile(`a^`)") {
+				variants = []string{"a^", "(?s).*"}
+			}
+		}
+		for _, pat := range variants {
+			setup := make([]string, len(plan.setup))
+			for i, s := range plan.setup {
+				setup[i] = strings.Replace(s, "regexp.MustCompile(`a^`)", "regexp.MustCompile(`"+pat+"`)", 1)
+			}
+			p2 := *plan
+			p2.setup = setup
+			src := genReplayTest(&p2, assigns, pre, oracle, o)
+			outcome, output := runReplaySource(v.repo, rp["replay_pkg_dir"].(string), src)
+			rp["replay_test"] = src
+			rp["replay_outcome"] = outcome
+			rp["replay_output"] = output
+			if outcome == "violated" {
+				return true
+			}
+			if outcome == "error" {
+				return false
+			}
+		}
+		// tighten: the real values of the library functions on this model's arguments
+		nl := learnFromModel(apps, vals, bound)
+		if len(nl) == 0 {
+			rp["replay_note"] = "model does not reproduce on the real code and nothing more can be learned from it"
+			return false
+		}
+		learned = append(learned, nl...)
+	}
+	rp["replay_note"] = "no reproducing input within 6 refinement rounds"
+	return false
+}
+
+type libApp struct {
+	fn        string
+	term      string
+	args      []string
+	seqArgs   []string
+	resultSeq bool
+}
+
+// libraryApps finds applications of spec functions that have a Go counterpart
+func libraryApps(text string) []libApp {
+	known := map[string]struct {
+		n      int
+		resSeq bool
+	}{"sp_contains": {2, false}, "sp_hasPrefix": {2, false}, "sp_hasSuffix": {2, false}, "sp_lower": {1, true}, "sp_tsLo": {1, false}, "sp_tsHi": {1, false}, "sp_indexOf": {2, false}, "sp_atoiOK": {1, false}, "sp_atoiVal": {1, false}}
+	seen := map[string]bool{}
+	var out []libApp
+	for _, it := range parseSexprs(text) {
+		if it.head() != "assert" {
+			continue
+		}
+		collectTerms(it, func(t *sx) {
+			k, ok := known[t.head()]
+			if !ok || len(t.list) != k.n+1 {
+				return
+			}
+			s := t.String()
+			if seen[s] || strings.Contains(s, "?") || len(out) >= 24 {
+				return
+			}
+			seen[s] = true
+			a := libApp{fn: t.head(), term: s, resultSeq: k.resSeq}
+			for _, x := range t.list[1:] {
+				a.args = append(a.args, x.String())
+				a.seqArgs = append(a.seqArgs, x.String())
+			}
+			out = append(out, a)
+		})
+	}
+	// inner applications first so that their values are known when outer ones are evaluated
+	sort.SliceStable(out, func(i, j int) bool { return len(out[i].term) < len(out[j].term) })
+	return out
+}
+
+// boundedDefinitions: exact definitions of the library functions for sequences of at most `bound` elements
+// (refutation mode only; candidates are still validated by replay)
+func boundedDefinitions(apps []libApp, bound int) []string {
+	var out []string
+	for _, a := range apps {
+		switch a.fn {
+		case "sp_contains", "sp_hasPrefix", "sp_hasSuffix":
+			A, B := a.args[0], a.args[1]
+			var alts []string
+			for o := 0; o <= bound; o++ {
+				var conj []string
+				conj = append(conj, fmt.Sprintf("(<= (+ %d (len_Y %s)) (len_Y %s))", o, B, A))
+				for t := 0; t < bound; t++ {
+					conj = append(conj, fmt.Sprintf("(=> (< %d (len_Y %s)) (= (at_Y %s %d) (at_Y %s %d)))", t, B, A, o+t, B, t))
+				}
+				c := "(and " + strings.Join(conj, " ") + ")"
+				switch a.fn {
+				case "sp_hasPrefix":
+					if o == 0 {
+						alts = append(alts, c)
+					}
+				case "sp_hasSuffix":
+					alts = append(alts, fmt.Sprintf("(and (= (+ %d (len_Y %s)) (len_Y %s)) %s)", o, B, A, c))
+				default:
+					alts = append(alts, c)
+				}
+			}
+			out = append(out, fmt.Sprintf("(assert (=> (and (<= (len_Y %s) %d) (<= (len_Y %s) %d)) (= %s (or %s))))", A, bound, B, bound, a.term, strings.Join(alts, " ")))
+		case "sp_lower":
+			A := a.args[0]
+			var conj []string
+			conj = append(conj, fmt.Sprintf("(= (len_Y %s) (len_Y %s))", a.term, A))
+			for t := 0; t < bound; t++ {
+				x := fmt.Sprintf("(at_Y %s %d)", A, t)
+				conj = append(conj, fmt.Sprintf("(=> (< %d (len_Y %s)) (= (at_Y %s %d) (ite (and (<= 65 %s) (<= %s 90)) (+ %s 32) %s)))", t, A, a.term, t, x, x, x, x))
+			}
+			out = append(out, fmt.Sprintf("(assert (=> (<= (len_Y %s) %d) (and %s)))", A, bound, strings.Join(conj, " ")))
+		}
+	}
+	return out
+}
+
+func modelBytes(vals map[string]string, term string, bound int) ([]byte, bool) {
+	n, ok := intOf(vals[fmt.Sprintf("(len_Y %s)", term)])
+	if !ok || n < 0 || n > int64(bound) {
+		return nil, false
+	}
+	bs := make([]byte, n)
+	for i := int64(0); i < n; i++ {
+		x, ok := intOf(vals[fmt.Sprintf("(at_Y %s %d)", term, i)])
+		if !ok || x < 0 || x > 255 {
+			return nil, false
+		}
+		bs[i] = byte(x)
+	}
+	return bs, true
+}
+
+func seqEqConstraint(term string, val []byte) string {
+	parts := []string{fmt.Sprintf("(= (len_Y %s) %d)", term, len(val))}
+	for i, b := range val {
+		parts = append(parts, fmt.Sprintf("(= (at_Y %s %d) %d)", term, i, b))
+	}
+	return "(and " + strings.Join(parts, " ") + ")"
+}
+
+// learnFromModel: for every library application whose arguments are concrete in the model, assert the value the
+// real Go function gives on them (guarded by "the arguments have these values").
+func learnFromModel(apps []libApp, vals map[string]string, bound int) []string {
+	var out []string
+	for _, a := range apps {
+		var argv [][]byte
+		ok := true
+		var guards []string
+		for _, t := range a.seqArgs {
+			b, k := modelBytes(vals, t, bound)
+			if !k {
+				ok = false
+				break
+			}
+			argv = append(argv, b)
+			guards = append(guards, seqEqConstraint(t, b))
+		}
+		if !ok {
+			continue
+		}
+		guard := "(and " + strings.Join(guards, " ") + ")"
+		boolRes := func(b bool) string { return fmt.Sprintf("(assert (=> %s (= %s %v)))", guard, a.term, b) }
+		intRes := func(n int) string {
+			if n < 0 {
+				return fmt.Sprintf("(assert (=> %s (= %s (- %d))))", guard, a.term, -n)
+			}
+			return fmt.Sprintf("(assert (=> %s (= %s %d)))", guard, a.term, n)
+		}
+		switch a.fn {
+		case "sp_contains":
+			out = append(out, boolRes(bytes.Contains(argv[0], argv[1])))
+		case "sp_hasPrefix":
+			out = append(out, boolRes(bytes.HasPrefix(argv[0], argv[1])))
+		case "sp_hasSuffix":
+			out = append(out, boolRes(bytes.HasSuffix(argv[0], argv[1])))
+		case "sp_lower":
+			out = append(out, fmt.Sprintf("(assert (=> %s %s))", guard, seqEqConstraint(a.term, bytes.ToLower(argv[0]))))
+		case "sp_tsLo":
+			t := bytes.TrimLeft(argv[0], " \t\n\v\f\r\x85\xa0")
+			lo := len(argv[0]) - len(t)
+			if len(bytes.TrimSpace(argv[0])) == 0 {
+				lo = 0
+			}
+			out = append(out, intRes(lo))
+		case "sp_tsHi":
+			ts := bytes.TrimSpace(argv[0])
+			t := bytes.TrimLeft(argv[0], " \t\n\v\f\r\x85\xa0")
+			lo := len(argv[0]) - len(t)
+			if len(ts) == 0 {
+				lo = 0
+			}
+			out = append(out, intRes(lo+len(ts)))
+		case "sp_indexOf":
+			out = append(out, intRes(bytes.Index(argv[0], argv[1])))
+		case "sp_atoiOK":
+			_, err := strconv.Atoi(string(argv[0]))
+			out = append(out, boolRes(err == nil))
+		case "sp_atoiVal":
+			n, err := strconv.Atoi(string(argv[0]))
+			if err == nil {
+				out = append(out, intRes(n))
+			}
+		}
+	}
+	// only constraints not already satisfied by the model are new information; keep all (cheap)
+	return out
+}
+
+func concretise(v *Verifier, plan *replayPlan, vals map[string]string) ([]string, map[string]string) {
+	var assigns []string
+	modelDesc := map[string]string{}
+	bytesOf := func(term string) ([]byte, bool) {
+		n, ok := intOf(vals[fmt.Sprintf("(len_Y %s)", term)])
+		if !ok || n < 0 || n > 40 {
+			return nil, false
+		}
+		bs := make([]byte, n)
+		for i := int64(0); i < n; i++ {
+			x, ok := intOf(vals[fmt.Sprintf("(at_Y %s %d)", term, i)])
+			if !ok {
+				x = 'a'
+			}
+			bs[i] = byte(x)
+		}
+		return bs, true
+	}
+	for _, lf := range plan.leaves {
+		switch lf.sort {
+		case SInt:
+			n, ok := intOf(vals[lf.term])
+			if !ok {
+				continue
+			}
+			if isInteger(lf.t) {
+				assigns = append(assigns, fmt.Sprintf("%s = %d", lf.goLHS, n))
+				modelDesc[lf.goLHS] = fmt.Sprint(n)
+			}
+		case SBool:
+			if vv, ok := vals[lf.term]; ok && (vv == "true" || vv == "false") {
+				assigns = append(assigns, fmt.Sprintf("%s = %s", lf.goLHS, vv))
+				modelDesc[lf.goLHS] = vv
+			}
+		case SBytes:
+			bs, ok := bytesOf(lf.term)
+			if !ok {
+				continue
+			}
+			if isString(lf.t) {
+				assigns = append(assigns, fmt.Sprintf("%s = string(%s)", lf.goLHS, goBytesLit(bs)))
+			} else {
+				assigns = append(assigns, fmt.Sprintf("%s = %s", lf.goLHS, goBytesLit(bs)))
+			}
+			modelDesc[lf.goLHS] = strconv.Quote(string(bs))
+		case SSeqB:
+			n, ok := intOf(vals[fmt.Sprintf("(len_B %s)", lf.term)])
+			if !ok || n < 0 || n > 3 {
+				continue
+			}
+			et := elemType(lf.t)
+			var elems []string
+			for i := int64(0); i < n; i++ {
+				bs, ok := bytesOf(fmt.Sprintf("(at_B %s %d)", lf.term, i))
+				if !ok {
+					bs = []byte("a")
+				}
+				if isString(et) {
+					elems = append(elems, "string("+goBytesLit(bs)+")")
+				} else {
+					elems = append(elems, goBytesLit(bs))
+				}
+			}
+			qual := v.qualifier(plan.pkg, plan.imports)
+			if strings.HasPrefix(lf.goLHS, "queue:") {
+				for _, e := range elems {
+					assigns = append(assigns, fmt.Sprintf("%s.Enqueue(%s)", strings.TrimPrefix(lf.goLHS, "queue:"), e))
+				}
+				modelDesc[lf.goLHS] = "[" + strings.Join(elems, ", ") + "]"
+				continue
+			}
+			assigns = append(assigns, fmt.Sprintf("%s = %s{%s}", lf.goLHS, types.TypeString(lf.t, qual), strings.Join(elems, ", ")))
+			modelDesc[lf.goLHS] = "[" + strings.Join(elems, ", ") + "]"
+		}
+	}
+	return assigns, modelDesc
+}
+
+func unusedReplayTail(v *Verifier, plan *replayPlan, o *Obl, rp map[string]interface{}, assigns, pre []string, oracle string) bool {
+	rp["replay_pkg_dir"] = strings.TrimPrefix(plan.pkg.Path(), repoModule+"/")
+	rp["replay_repo"] = v.repo
+	// regular expressions cannot be concretised from an uninterpreted model: try a never-matching and an
+	// always-matching pattern for the pattern-typed inputs
+	variants := []string{"a^"}
+	for _, s := range plan.setup {
+		if strings.Contains(s, "regexp.MustCompile(`a^`)") {
+			variants = []string{"a^", "(?s).*"}
+		}
+	}
+	for _, pat := range variants {
+		setup := make([]string, len(plan.setup))
+		for i, s := range plan.setup {
+			setup[i] = strings.Replace(s, "regexp.MustCompile(`a^`)", "regexp.MustCompile(`"+pat+"`)", 1)
+		}
+		p2 := *plan
+		p2.setup = setup
+		src := genReplayTest(&p2, assigns, pre, oracle, o)
+		outcome, output := runReplaySource(v.repo, rp["replay_pkg_dir"].(string), src)
+		rp["replay_test"] = src
+		rp["replay_outcome"] = outcome
+		rp["replay_output"] = output
+		if outcome == "violated" {
+			return true
+		}
+	}
+	return false
+}
+
+func genReplayTest(plan *replayPlan, assigns, pre []string, oracle string, o *Obl) string {
+	var b strings.Builder
+	f := plan.f
+	fmt.Fprintf(&b, "// generated by govc: replay of obligation %s\npackage %s\n\nimport (\n\t\"bytes\"\n\t\"errors\"\n\t\"fmt\"\n\t\"net\"\n\t\"reflect\"\n\t\"testing\"\n\t\"time\"\n", o.Name, plan.pkg.Name())
+	var imps []string
+	for p := range plan.imports {
+		if p == "bytes" || p == "errors" || p == "fmt" || p == "net" || p == "reflect" || p == "testing" || p == "time" {
+			continue
+		}
+		imps = append(imps, p)
+	}
+	sort.Strings(imps)
+	for _, p := range imps {
+		fmt.Fprintf(&b, "\t%q\n", p)
+	}
+	b.WriteString(")\n\n")
+	b.WriteString(replayRuntime)
+	b.WriteString("\nfunc TestGovcReplay(t *testing.T) {\n")
+	for _, s := range plan.setup {
+		fmt.Fprintf(&b, "\t%s\n", s)
+	}
+	for _, s := range assigns {
+		fmt.Fprintf(&b, "\t%s\n", s)
+	}
+	for _, a := range plan.args {
+		fmt.Fprintf(&b, "\t_ = %s\n", a)
+	}
+	for _, s := range pre {
+		fmt.Fprintf(&b, "\t%s\n", s)
+	}
+	nres := f.Signature.Results().Len()
+	var rs []string
+	for i := 0; i < nres; i++ {
+		rs = append(rs, fmt.Sprintf("r%d", i))
+		fmt.Fprintf(&b, "\tvar r%d %s\n\t_ = r%d\n", i, types.TypeString(f.Signature.Results().At(i).Type(), func(p *types.Package) string {
+			if p == plan.pkg {
+				return ""
+			}
+			return p.Name()
+		}), i)
+	}
+	call := ""
+	if f.Signature.Recv() != nil {
+		call = fmt.Sprintf("%s.%s(%s)", plan.args[0], f.Name(), strings.Join(variadicArgs(f, plan.args[1:]), ", "))
+	} else {
+		call = fmt.Sprintf("%s(%s)", f.Name(), strings.Join(variadicArgs(f, plan.args), ", "))
+	}
+	b.WriteString("\tpanicked := false\n\tvar panicVal interface{}\n\tfunc() {\n\t\tdefer func() {\n\t\t\tif r := recover(); r != nil {\n\t\t\t\tpanicked = true\n\t\t\t\tpanicVal = r\n\t\t\t}\n\t\t}()\n")
+	if nres > 0 {
+		fmt.Fprintf(&b, "\t\t%s = %s\n", strings.Join(rs, ", "), call)
+	} else {
+		fmt.Fprintf(&b, "\t\t%s\n", call)
+	}
+	b.WriteString("\t}()\n")
+	fmt.Fprintf(&b, "\tviolated := %s\n", oracle)
+	b.WriteString("\tif violated {\n\t\tfmt.Printf(\"REPLAY-RESULT: violated (panicked=%v %v)\\n\", panicked, panicVal)\n\t\tt.Fatalf(\"obligation violated on the real code\")\n\t}\n\tfmt.Println(\"REPLAY-RESULT: held\")\n}\n")
+	return b.String()
+}
+
+func variadicArgs(f *ssa.Function, args []string) []string {
+	out := append([]string(nil), args...)
+	if f.Signature.Variadic() && len(out) > 0 {
+		out[len(out)-1] += "..."
+	}
+	return out
+}
+
+func runReplaySource(repo, pkgDir, src string) (string, string) {
+	tmp, err := os.MkdirTemp("/var/tmp", "govc-replay-")
+	if err != nil {
+		return "error", err.Error()
+	}
+	defer os.RemoveAll(tmp)
+	testFile := filepath.Join(tmp, "zz_govc_replay_test.go")
+	os.WriteFile(testFile, []byte(src), 0o644)
+	ov := map[string]map[string]string{"Replace": {filepath.Join(repo, pkgDir, "zz_govc_replay_test.go"): testFile}}
+	ob, _ := json.Marshal(ov)
+	ovFile := filepath.Join(tmp, "ov.json")
+	os.WriteFile(ovFile, ob, 0o644)
+	cmd := exec.Command("sh", "-c", fmt.Sprintf("ulimit -v 4000000; cd %s && go test -overlay %s -vet=off -count=1 -v -timeout 60s -run '^TestGovcReplay$' ./%s/", repo, ovFile, pkgDir))
+	cmd.Env = append(os.Environ(), "GOFLAGS=-mod=mod", "GOPROXY=off", "GOSUMDB=off", "GOTOOLCHAIN=local")
+	var out bytes.Buffer
+	cmd.Stdout = &out
+	cmd.Stderr = &out
+	done := make(chan struct{})
+	go func() { cmd.Run(); close(done) }()
+	select {
+	case <-done:
+	case <-time.After(120 * time.Second):
+		if cmd.Process != nil {
+			cmd.Process.Kill()
+		}
+	}
+	o := out.String()
+	if len(o) > 4000 {
+		o = o[:4000]
+	}
+	switch {
+	case strings.Contains(o, "REPLAY-RESULT: violated"):
+		return "violated", o
+	case strings.Contains(o, "REPLAY-RESULT: held"):
+		return "held", o
+	}
+	return "error", o
+}
+
+func runReplayTest(rp map[string]interface{}) int {
+	src, _ := rp["replay_test"].(string)
+	dir, _ := rp["replay_pkg_dir"].(string)
+	repo, _ := rp["replay_repo"].(string)
+	if repo == "" {
+		repo = "/repo"
+	}
+	outcome, out := runReplaySource(repo, dir, src)
+	fmt.Printf("replay outcome on %s: %s\n%s\n", repo, outcome, out)
+	if outcome == "violated" {
+		return 1
+	}
+	return 0
+}
+
+const replayRuntime = `
+type replayConn struct{ written []byte }
+
+func (c *replayConn) Read(b []byte) (int, error)         { return 0, errors.New("replay: no data") }
+func (c *replayConn) Write(b []byte) (int, error)        { c.written = append(c.written, b...); return len(b), nil }
+func (c *replayConn) Close() error                       { return nil }
+func (c *replayConn) LocalAddr() net.Addr                { return nil }
+func (c *replayConn) RemoteAddr() net.Addr               { return nil }
+func (c *replayConn) SetDeadline(t time.Time) error      { return nil }
+func (c *replayConn) SetReadDeadline(t time.Time) error  { return nil }
+func (c *replayConn) SetWriteDeadline(t time.Time) error { return nil }
+
+func rNorm(x interface{}) interface{} {
+	switch v := x.(type) {
+	case string:
+		return []byte(v)
+	case nil:
+		return nil
+	}
+	rv := reflect.ValueOf(x)
+	switch rv.Kind() {
+	case reflect.Slice:
+		if rv.Type().Elem().Kind() == reflect.Uint8 {
+			return rv.Bytes()
+		}
+		out := make([]interface{}, rv.Len())
+		for i := range out {
+			out[i] = rNorm(rv.Index(i).Interface())
+		}
+		return out
+	case reflect.Int, reflect.Int8, reflect.Int16, reflect.Int32, reflect.Int64:
+		return rv.Int()
+	case reflect.Uint, reflect.Uint8, reflect.Uint16, reflect.Uint32, reflect.Uint64:
+		return int64(rv.Uint())
+	case reflect.Ptr, reflect.Interface, reflect.Map, reflect.Chan, reflect.Func:
+		if rv.IsNil() {
+			return nil
+		}
+	}
+	return x
+}
+
+func rEq(a, b interface{}) bool {
+	a, b = rNorm(a), rNorm(b)
+	if ab, ok := a.([]byte); ok {
+		if b == nil {
+			return len(ab) == 0
+		}
+		bb, ok2 := b.([]byte)
+		return ok2 && bytes.Equal(ab, bb)
+	}
+	if bb, ok := b.([]byte); ok && a == nil {
+		return len(bb) == 0
+	}
+	if al, ok := a.([]interface{}); ok {
+		if b == nil {
+			return len(al) == 0
+		}
+		bl, ok2 := b.([]interface{})
+		if !ok2 || len(al) != len(bl) {
+			return false
+		}
+		for i := range al {
+			if !rEq(al[i], bl[i]) {
+				return false
+			}
+		}
+		return true
+	}
+	if bl, ok := b.([]interface{}); ok && a == nil {
+		return len(bl) == 0
+	}
+	return reflect.DeepEqual(a, b)
+}
+
+func rInt(x interface{}) int64 {
+	switch v := rNorm(x).(type) {
+	case int64:
+		return v
+	case bool:
+		if v {
+			return 1
+		}
+	}
+	panic("rInt")
+}
+
+func rB(x interface{}) []byte {
+	if x == nil {
+		return nil
+	}
+	if b, ok := rNorm(x).([]byte); ok {
+		return b
+	}
+	panic("rB")
+}
+
+func rLen(x interface{}) int64 {
+	switch v := rNorm(x).(type) {
+	case nil:
+		return 0
+	case []byte:
+		return int64(len(v))
+	case []interface{}:
+		return int64(len(v))
+	}
+	panic("rLen")
+}
+
+func rAt(x interface{}, i int64) interface{} {
+	switch v := rNorm(x).(type) {
+	case []byte:
+		return int64(v[i])
+	case []interface{}:
+		return v[i]
+	}
+	panic("rAt")
+}
+
+func rSlice(x interface{}, lo, hi int64) interface{} {
+	switch v := rNorm(x).(type) {
+	case nil:
+		if lo == 0 && hi == 0 {
+			return []byte(nil)
+		}
+	case []byte:
+		return v[lo:hi]
+	case []interface{}:
+		return v[lo:hi]
+	}
+	panic("rSlice")
+}
+
+func rAdd(a, b interface{}) interface{} {
+	a, b = rNorm(a), rNorm(b)
+	if x, ok := a.(int64); ok {
+		return x + b.(int64)
+	}
+	switch x := a.(type) {
+	case nil:
+		return b
+	case []byte:
+		if b == nil {
+			return x
+		}
+		return append(append([]byte(nil), x...), b.([]byte)...)
+	case []interface{}:
+		if b == nil {
+			return x
+		}
+		return append(append([]interface{}(nil), x...), b.([]interface{})...)
+	}
+	panic("rAdd")
+}
+
+func rBytes(xs ...interface{}) interface{} {
+	out := []byte{}
+	for _, x := range xs {
+		out = append(out, byte(rInt(x)))
+	}
+	return out
+}
+
+func rList(xs ...interface{}) interface{} {
+	out := []interface{}{}
+	for _, x := range xs {
+		out = append(out, rNorm(x))
+	}
+	return out
+}
+
+func rCopy(x interface{}) interface{} {
+	n := rNorm(x)
+	if b, ok := n.([]byte); ok {
+		return append([]byte(nil), b...)
+	}
+	return n
+}
+
+func rIte(c bool, a, b func() interface{}) interface{} {
+	if c {
+		return a()
+	}
+	return b()
+}
+
+func rForall(lo, hi int64, f func(i int64) bool) bool {
+	for i := lo; i < hi; i++ {
+		if !f(i) {
+			return false
+		}
+	}
+	return true
+}
+
+func rExists(lo, hi int64, f func(i int64) bool) bool {
+	for i := lo; i < hi; i++ {
+		if f(i) {
+			return true
+		}
+	}
+	return false
+}
+
+func rErr(x interface{}) error {
+	if x == nil {
+		return nil
+	}
+	return x.(error)
+}
+
+func rBool(x interface{}) bool { return x.(bool) }
+
+var _ = fmt.Sprint
+var _ = errors.Is
+`
